@@ -3157,7 +3157,8 @@ func (b *Bundle) Compile(log logger.Log, timer *helpers.Timer, mangleCache map[s
 			for _, sourceIndex := range allReachableFiles {
 				keyPath := b.files[sourceIndex].inputFile.Source.KeyPath
 				if keyPath.Namespace == "file" {
-					absPathKey := canonicalFileSystemPathForWindows(keyPath.Text)
+					// Clean the path since plugins can return paths such as "dir/./file"
+					absPathKey := canonicalFileSystemPathForWindows(b.fs.Join(keyPath.Text))
 					sourceAbsPaths[absPathKey] = sourceIndex
 				}
 			}
